@@ -515,11 +515,18 @@ theorem tw_addServerConn (w : World) (addr : Nat) (dcid rand o : CID) (r : Optio
       rcases get_append_cases hk with h1 | ⟨h0, h1⟩
       · rw [h.inv.reach c k h1 hss hterm cid hi hr]
       · subst h1
-        simp at hi
-        subst hi
-        have : w.tbl.get cid = none := (AL.get_none_iff cid w.tbl).2 hrk.1
-        have hne : ¬ dcid = cid := fun e => hrk.2 e.symm
-        simp [this, AL.get, hne, h0]
+        have hcases : cid = rand ∨ cid = dcid := by
+          have hi' : cid ∈ serverIssued rand dcid r := hi
+          cases r <;> simp [serverIssued] at hi'
+          · exact Or.inl hi'
+          · exact hi'
+        rcases hcases with hi | hi
+        · subst hi
+          have : w.tbl.get cid = none := (AL.get_none_iff cid w.tbl).2 hrk.1
+          have hne : ¬ dcid = cid := fun e => hrk.2 e.symm
+          simp [this, AL.get, hne, h0]
+        · subst hi
+          simp [hd, AL.get, h0]
     · intro e he
       simp only [World.addServerConn] at he ⊢
       rw [htbl] at he
@@ -528,9 +535,9 @@ theorem tw_addServerConn (w : World) (addr : Nat) (dcid rand o : CID) (r : Optio
       · obtain ⟨k, hk, hh⟩ := h.inv.entries e he
         exact ⟨k, get_append_left hk, hh⟩
       · subst he
-        exact ⟨({ ss := true, p := { issuedG := [rand] } } : Conn), by simp, rfl, by simp [Proto.termSeen]⟩
+        exact ⟨({ ss := true, p := { issuedG := serverIssued rand dcid r } } : Conn), by simp, rfl, by simp [Proto.termSeen]⟩
       · subst he
-        exact ⟨({ ss := true, p := { issuedG := [rand] } } : Conn), by simp, rfl, by simp [Proto.termSeen]⟩
+        exact ⟨({ ss := true, p := { issuedG := serverIssued rand dcid r } } : Conn), by simp, rfl, by simp [Proto.termSeen]⟩
     · intro c k hk
       simp only [World.addServerConn] at hk
       rcases get_append_cases hk with h1 | ⟨_, h1⟩
@@ -939,5 +946,56 @@ theorem run_k (w : World) (ops : List Op) (hs : (run w ops).vSeal = false) : w.v
     obtain ⟨a1, a2⟩ := ih _ hs
     obtain ⟨b1, b2⟩ := step_k w op a1
     exact ⟨b1, fun h => a2 (b2 h)⟩
+
+/-! ### the DCID of a token-bearing Initial is the Retry source CID -/
+
+/-- while the peer monitor `vRetryDcid` is silent, every connection created from a validated token was created by
+    a datagram addressed to the sealed retry source connection ID — the ID the server issued in its Retry packet -/
+def DJ (w : World) : Prop :=
+  w.vRetryDcid = false → ∀ cr ∈ w.createdG, ∀ r, cr.rscid = some r → cr.dcid = r
+
+theorem DJ.of_eq {w w' : World} (h : DJ w) (h1 : w'.createdG = w.createdG) (h2 : w'.vRetryDcid = w.vRetryDcid) : DJ w' := by
+  intro hv cr hcr r hr; rw [h1] at hcr; rw [h2] at hv; exact h hv cr hcr r hr
+
+theorem DJ.onConn {w : World} (h : DJ w) (c : Nat) (f : Ctx → PS → PS × Option Err) (act : Action) :
+    DJ (w.onConn c f act).1 := by
+  cases hk : w.conns[c]? with
+  | none => rw [onConn_none w c f act hk]; exact h
+  | some k => rw [onConn_some w c f act k hk]; exact h.of_eq rfl rfl
+
+theorem DJ.add {w : World} (h : DJ w) (addr : Nat) (dcid rand o : CID) (r : Option CID) :
+    DJ (w.addServerConn addr dcid rand o r) := by
+  intro hv cr hcr r' hr
+  simp only [World.addServerConn] at hv hcr
+  simp only [Bool.or_eq_false_iff] at hv
+  rcases List.mem_append.1 hcr with h1 | h1
+  · exact h hv.1 cr h1 r' hr
+  · simp only [List.mem_singleton] at h1
+    subst h1
+    simp only at hr
+    subst hr
+    simpa using hv.2
+
+theorem DJ.markSeal {w : World} (h : DJ w) (tok : Token) : DJ (w.markSeal tok) := h.of_eq rfl rfl
+
+theorem DJ.issue {w : World} (h : DJ w) (addr : Nat) (dcid rand : CID) : DJ (w.issueToken addr dcid rand) :=
+  h.of_eq rfl rfl
+
+theorem step_dj (w : World) (h : DJ w) (op : Op) : DJ (step w op).1 := by
+  cases op <;> simp only [step, sdgram, World.onProto, World.deliver] <;> (repeat' split) <;>
+    first
+      | exact h
+      | exact h.onConn _ _ _
+      | exact DJ.of_eq (DJ.onConn h _ _ _) rfl rfl
+      | exact h.markSeal _
+      | exact (h.markSeal _).issue _ _ _
+      | exact (h.markSeal _).onConn _ _ _
+      | exact ((h.markSeal _).add _ _ _ _ _).onConn _ _ _
+      | exact DJ.of_eq h rfl rfl
+
+theorem run_dj (w : World) (h : DJ w) (ops : List Op) : DJ (run w ops) := by
+  induction ops generalizing w with
+  | nil => exact h
+  | cons op ops ih => simp only [run]; exact ih _ (step_dj w h op)
 
 end AQ.Adapter
